@@ -29,7 +29,8 @@ REQUIRED_MONITORS = ["interfaces_agree", "selection_matches_reference_index", "u
 REQUIRED_BUCKETS = {"quick": ["iface:kernel", "iface:DirectModel", "iface:keyword", "iface:sasview", "iface:bumps",
                               "dim:1d", "dim:2d", "multiplicity", "product", "array_distribution", "select:mask",
                               "select:qlimits", "select:nan", "refuse:misspelt", "refuse:foreign", "refuse:pd_suffix", "refuse:bad_attribute",
-                              "dispersity-on-vector-element:1d"]}
+                              "dispersity-on-vector-element:1d", "refuse:repeated-on-one-object", "sasview:clone-edited",
+                              "product:intermediates-after-setting-change"]}
 REQUIRED_BUCKETS["thorough"] = REQUIRED_BUCKETS["quick"]
 
 STUBS = os.path.join(core.VERIF, "rtm", "stubs")
@@ -164,7 +165,18 @@ def run_agree(case, rec):
     if arr:
         rec.bucket("array_distribution")
     spars = {kk: v for kk, v in pars.items() if kk not in control}
-    res["sasview"], _ = via_sasview(Model, spars, pd, q, cutoff, multiplicity=mult, array_for=arr)
+    res["sasview"], sv_obj = via_sasview(Model, spars, pd, q, cutoff, multiplicity=mult, array_for=arr)
+    # a clone is its own object: changing the clone's dispersity settings leaves the original's theory alone
+    pdn = [n_ for n_ in pd if n_ != arr]
+    if pdn:
+        twin = sv_obj.clone()
+        for n_ in pdn:
+            twin.setParam(n_ + ".width", 2.0*pd[n_][2] + 0.01)
+            twin.setParam(n_ + ".npts", pd[n_][1] + 3)
+        qq_ = q[0] if len(q) == 1 else [q[0], q[1]]
+        twin.evalDistribution(qq_)
+        res["sasview original after its clone was edited"] = np.asarray(sv_obj.evalDistribution(qq_), float)
+        rec.bucket("sasview:clone-edited")
     bm = bumps_model.Model(model, **up)
     res["bumps"] = np.asarray(bumps_model.Experiment(data_for(dim, q), bm, cutoff=cutoff).theory(), float)
     ref = res["kernel"]
@@ -207,6 +219,27 @@ def run_product(case, rec):
     ref = np.asarray(direct_model.call_kernel(model.make_kernel([q]), sub), float)
     rec.check("interfaces_agree", core.close(got, ref, 1e-12, 0.0),
               {"model": P + "@" + S, "interface": "MultiplicationModel", "sasview": got, "kernel": ref})
+    # the wrapper's report of the intermediates after a dispersity setting changed, asked for directly (no
+    # evaluation in between): they are the ones of the current settings
+    pdpar = [p_ for p_ in sas.info(P).parameters.call_parameters if p_.polydisperse and p_.type == "volume" and p_.name in mm.params]
+    if pdpar and hasattr(mm, "calc_composition_models"):
+        pn = pdpar[0].name
+        for wv, nn in ((0.1, 8), (0.25, 12)):
+            mm.setParam(pn + ".width", wv)
+            mm.setParam(pn + ".npts", nn)
+            parts = mm.calc_composition_models(q)
+            sub2 = dict(sub, **{pn + "_pd": wv, pn + "_pd_n": nn, pn + "_pd_nsigma": 3.0, pn + "_pd_type": "gaussian"})
+            kern2 = model.make_kernel([q])
+            ref2 = np.asarray(direct_model.call_kernel(kern2, sub2), float)
+            want = kern2.results()
+            okp = parts is not None and len(parts) == 2 and all(
+                core.close(np.asarray(got_, float), np.asarray(want[key][1], float), 1e-10, 0.0)
+                for got_, key in zip(parts, ("P(Q)", "S(Q)")))
+            rec.check("interfaces_agree", bool(okp),
+                      {"model": P + "@" + S, "interface": "MultiplicationModel.calc_composition_models after %s.width=%g" % (pn, wv),
+                       "sasview_P": None if parts is None else np.asarray(parts[0], float),
+                       "kernel_P": np.asarray(want["P(Q)"][1], float)})
+        rec.bucket("product:intermediates-after-setting-change")
     rec.bucket("product", "iface:sasview")
     rec.set_shape((P, S, "product"), True)
 
@@ -327,6 +360,20 @@ def run_refuse(case, rec):
             rec.check("unknown_name_refused", False, dict(ctx, interface=iface, returned=repr(out)[:200]))
         except (TypeError, ValueError, KeyError) as exc:
             rec.check("unknown_name_refused", True)
+    # the refusal does not wear off: one calculator object, a good call, then the same bad call three times
+    calc = direct_model.DirectModel(data_for("1d", q), model)
+    good = np.asarray(calc(), float)
+    for attempt in range(3):
+        try:
+            out = calc(**{bad: value})
+            rec.check("unknown_name_refused", False, dict(ctx, interface="DirectModel (same object, attempt %d after a good call)"
+                                                          % (attempt + 1), returned=repr(out)[:200]))
+        except (TypeError, ValueError, KeyError):
+            rec.check("unknown_name_refused", True)
+    again = np.asarray(calc(), float)
+    rec.check("interfaces_agree", bool(np.array_equal(good, again)),
+              dict(ctx, interface="DirectModel good call after refused calls", first=good, again=again))
+    rec.bucket("refuse:repeated-on-one-object")
     rec.set_shape(("refuse", name, kind, bad), True)
 
 
